@@ -73,7 +73,7 @@ class Check:
 
     # -- replay
     def write_replay(self, files=None):
-        d = os.path.join(VERIF, "replay", self.pid)
+        d = os.path.join(os.environ.get("VERIF_REPLAY_DIR") or os.path.join(VERIF, "replay"), self.pid)
         os.makedirs(d, exist_ok=True)
         path = os.path.join(d, "witness_%s_seed%d.json" % (self.tier, self.seed))
         with open(path, "w") as f:
@@ -106,8 +106,11 @@ class Check:
         ev = {"property_id": self.pid, "tier": self.tier, "seed": self.seed, "level": self.level,
               "coverage": cov, "assumptions": self.assumptions, "wall_s": round(wall, 2),
               "violations": len(self.violations)}
-        os.makedirs(os.path.join(VERIF, "evidence"), exist_ok=True)
-        with open(os.path.join(VERIF, "evidence", self.pid + ".json"), "w") as f:
+        # VERIF_EVIDENCE_DIR is set only by tools/seeded_eval.py, so that runs against patched scratch copies do not
+        # overwrite the evidence of the registered checks (which always comes from /repo itself)
+        evdir = os.environ.get("VERIF_EVIDENCE_DIR") or os.path.join(VERIF, "evidence")
+        os.makedirs(evdir, exist_ok=True)
+        with open(os.path.join(evdir, self.pid + ".json"), "w") as f:
             json.dump(ev, f, indent=1, default=str)
         for k, v in self.known_hits.items():
             print("KNOWN-FINDING: property=%s %s [key=%s, seen %d times]" % (self.pid, v[1], k, v[0]))
